@@ -321,6 +321,24 @@ pub fn drive_undoall() -> Vec<String> {
         let before = dump_state(&m);
         if let Err(e) = op(&mut m) { let _ = e; if dump_state(&m) != before { fails.push(format!("{name}: the operation failed and changed the state")); } continue; }
         let after = dump_state(&m);
+        // C03: a replica that applies the queued diffs of this operation reaches the same state
+        {
+            let mut replica = make();
+            let _ = replica.flush_send_queue();
+            let mut sender = make();
+            let _ = sender.flush_send_queue();
+            if op(&mut sender).is_ok() {
+                let q = sender.flush_send_queue();
+                match replica.apply_external_diffs(&q) {
+                    Ok(()) => if dump_state(&replica) != dump_state(&sender) {
+                        let (x, y) = (dump_state(&sender), dump_state(&replica));
+                        let d: Vec<String> = x.lines().zip(y.lines()).filter(|(p, q)| p != q).take(1).map(|(p, q)| format!("{} -> {}", &p[..p.len().min(70)], &q[..q.len().min(70)])).collect();
+                        fails.push(format!("{name}: a replica applying the queued diffs differs from the sender ({})", d.join(" ")));
+                    },
+                    Err(e) => fails.push(format!("{name}: the replica rejects the queued diffs: {e}")),
+                }
+            }
+        }
         if let Err(e) = m.undo() { fails.push(format!("{name}: undo failed: {e}")); continue; }
         let undone = dump_state(&m);
         if undone != before {
